@@ -419,7 +419,8 @@ Section ExecSys.
     else if unknown_key fchain eo_msgs aos then Err
     else match EM.merge_tokens fchain (map to_em aos) with
          | Ok ts =>
-             Ok (mkEmerged (merge_commits_rt rt fchain aos) (merge_msgs_rt rt fchain aos) ts
+             (* commit reports are destination data: every chain key gets the destination's f (repair of F75) *)
+             Ok (mkEmerged (merge_commits_rt rt (EM.dest_fchain dest fchain) aos) (merge_msgs_rt rt fchain aos) ts
                            (EM.merge_costly (EM.f_dest dest fchain) (map to_em aos))
                            (merge_nonces_rt rt (EM.f_dest dest fchain) aos))
          | _ => Err
@@ -440,8 +441,22 @@ Section ExecSys.
   Definition new_outcome (st : N) (pending : list ER.cdata) (reports : list ER.creport) : eout :=
     mkEout st (sort_pending pending) (sort_reports reports).
 
-  (* getCommitReportsOutcome: chains ascending, flattened, stable sort by timestamp *)
+  (* dropConflictingReports (repair of F76): an agreed report is dropped when another agreed report of its source chain
+     has the same root or an overlapping interval; every report conflicts with itself, so "another one" = two or more
+     conflicting entries *)
+  Definition ec_conflicts (a b : ER.cdata) : bool :=
+    N.eqb (ER.c_src a) (ER.c_src b) &&
+    (N.eqb (ER.c_root a) (ER.c_root b) || (N.leb (ER.c_start a) (ER.c_end b) && N.leb (ER.c_start b) (ER.c_end a))).
+  Definition drop_conflicting (l : list ecommit) : list ecommit :=
+    filter (fun a => Nat.leb (length (filter (fun b => ec_conflicts (ec_data a) (ec_data b)) l)) 1) l.
+  (* getCommitReportsOutcome: chains ascending, flattened, conflicting reports dropped, stable sort by timestamp *)
   Definition get_commit_reports (m : emerged) : list ER.cdata :=
+    let chains := sortN (ekeys (em_commits m)) in
+    let all := flat_map (fun c => lookup1 c (em_commits m)) chains in
+    map ec_data (sort_by (fun a b => Z.leb (ec_ts a) (ec_ts b)) (drop_conflicting all)).
+
+  (* getCommitReportsOutcome before the repair of F76: conflicting agreed reports kept *)
+  Definition get_commit_reports_unfixed (m : emerged) : list ER.cdata :=
     let chains := sortN (ekeys (em_commits m)) in
     let all := flat_map (fun c => lookup1 c (em_commits m)) chains in
     map ec_data (sort_by (fun a b => Z.leb (ec_ts a) (ec_ts b)) all).
